@@ -37,6 +37,18 @@ def directions(sh, case):
         except Exception as e:
             sh.violate(case, {'mechanism': attach.exc_mechanism(e), 'message': 'direction %s raised %r' % (d, e)},
                        'directions')
+    # a table from which rows were dropped (every other cycle, the large-amplitude cycles): each remaining row is still judged
+    # by its own cyclepoints (the monitor on compute_monotonicity computes the reference row by row)
+    from bycycle.features.burst import compute_monotonicity as _cm
+    for sub in (df.iloc[::2], df[df['volt_amp'] >= df['volt_amp'].median()]):
+        if len(sub) >= 2:
+            try:
+                with quiet():
+                    _cm(sub.copy(), np.array(case['sig'], copy=True))
+                attach.count('C05:monotonicity_on_tables_with_dropped_rows')
+            except Exception as e:
+                sh.violate(case, {'mechanism': attach.exc_mechanism(e), 'message': 'compute_monotonicity on a table with dropped rows raised %r' % (e,)},
+                           'directions')
     # the assembled table: compute_burst_features puts, row for row, what the four feature functions return for the same cycle table
     # (each of them is judged by its own monitor) - also when the cycle table carries its own row labels
     from bycycle.features.burst import compute_burst_features, compute_amp_fraction, compute_monotonicity
